@@ -33,7 +33,7 @@ inductive Op (K V P : Type) where
   | opt (l : Nat) (f : Flags)
   | enter (kw : Assoc K V)        -- `with logger.contextualize(**kw):` reaches its body
   | exit                          -- the innermost open block of this context is left normally
-  | raise (k : Nat)               -- an exception propagates out of the k innermost open blocks
+  | raise (k : Nat) (kind : ExitKind)  -- an exception of that kind propagates out of the k innermost open blocks
   | log (l : Nat) (kw : Assoc K V)
   | spawn (copy : Bool)           -- new task (copy) / new thread (empty context)
   | addHandler
@@ -113,19 +113,23 @@ def logEvents (papply : P → Assoc K V → Assoc K V) (s : State K V P) (c : Na
   let x0 := buildExtra s.coreExtra (ctxGet s c) o.extra kw o.flags.capture
   (Gen.logPhases.foldl (runPhase papply s c o) ([], x0)).1
 
-/-- leave the innermost open block of context `c`: `finally: context.reset(token)` -/
-def exitOne (s : State K V P) (c : Nat) : State K V P :=
+/-- leave the innermost open block of context `c` in the given way: `context.reset(token)` runs for
+the ways of leaving listed in `Gen.resetOn` (all of them for `try: yield  finally: reset`); for
+the others the generator just ends and the variable keeps the block's value -/
+def exitOne (s : State K V P) (c : Nat) (kind : ExitKind) : State K V P :=
   match s.stacks c with
   | [] => s
   | f :: rest =>
     let st := fun c' => if c' = c then rest else s.stacks c'
-    match ContextVars.reset s.cv c f.tok with
-    | .ok cv' => { s with cv := cv', stacks := st }
-    | .error e => { s with stacks := st, out := s.out ++ [Event.error c e] }
+    if kind ∈ Gen.resetOn then
+      match ContextVars.reset s.cv c f.tok with
+      | .ok cv' => { s with cv := cv', stacks := st }
+      | .error e => { s with stacks := st, out := s.out ++ [Event.error c e] }
+    else { s with stacks := st }
 
-def exitN (s : State K V P) (c : Nat) : Nat → State K V P
+def exitN (s : State K V P) (c : Nat) (kind : ExitKind) : Nat → State K V P
   | 0 => s
-  | n + 1 => exitN (exitOne s c) c n
+  | n + 1 => exitN (exitOne s c kind) c kind n
 
 /-- one operation executed in context `c` -/
 def step (papply : P → Assoc K V → Assoc K V) (s : State K V P) (c : Nat) : Op K V P → State K V P
@@ -148,8 +152,8 @@ def step (papply : P → Assoc K V → Assoc K V) (s : State K V P) (c : Nat) : 
     let r := ContextVars.set s.cv c (ctxExtra (ctxGet s c) kw)
     { s with cv := r.1,
              stacks := fun c' => if c' = c then { tok := r.2, kw := kw } :: s.stacks c else s.stacks c' }
-  | .exit => exitOne s c
-  | .raise k => exitN s c k
+  | .exit => exitOne s c .normal
+  | .raise k kind => exitN s c kind k
   | .log l kw =>
     match s.loggers[l]? with
     | some o => if s.handlers.isEmpty then s else { s with out := s.out ++ logEvents papply s c o kw }
